@@ -227,6 +227,7 @@ def _variants(P, clfkw, altkw):
     add("GreedySamplingTarget", "GSy,n_GSx=2", lambda c, s: P.GreedySamplingTarget(method="GSy", n_GSx_samples=2, random_state=s), "reg", lin, samplewise=True)
     add("GreedySamplingTarget", "metrics", lambda c, s: P.GreedySamplingTarget(x_metric="manhattan", y_metric="manhattan", x_metric_dict={}, y_metric_dict={}, n_GSx_samples=3, random_state=s), "reg", lin, samplewise=True)
     add("BatchBALD", "n_MC=20,eps", lambda c, s: P.BatchBALD(n_MC_samples=20, eps=1e-3, random_state=s), "clf", ens, setdep=True)
+    add("BatchBALD", "n_MC=7", lambda c, s: P.BatchBALD(n_MC_samples=7, random_state=s), "clf", ens, setdep=True)     # sampled joint entropies from the 4th pick on
     add("GreedyBALD", "eps=1e-3", lambda c, s: P.GreedyBALD(eps=1e-3, random_state=s), "clf", ens, samplewise=True)
     add("Clue", "margin_sampling,cluster_algo_dict", lambda c, s: P.Clue(method="margin_sampling", cluster_algo_dict={"n_init": 2}, random_state=s), "clf", altkw, setdep=True)
     add("DropQuery", "rate=0.5,n=3,cluster_algo_dict", lambda c, s: P.DropQuery(dropout_rate=0.5, n_dropout_samples=3, cluster_algo_dict={"n_init": 2}, random_state=s), "clf", altkw, setdep=True)
@@ -296,8 +297,8 @@ def gen_data(rng, task, n=None, binary=False, cold=None):
     return X, y, y_true, classes, labeling
 
 
-def gen_candidates(rng, entry, X, y):
-    """(mode, candidates argument)."""
+def gen_candidates(rng, entry, X, y, mode_idx=None):
+    """(mode, candidates argument).  mode_idx: cycle through the supported modes instead of drawing one."""
     unl = np.flatnonzero(np.isnan(y))
     modes = ["none", "idx_unl"]
     if entry.anyidx:
@@ -305,6 +306,8 @@ def gen_candidates(rng, entry, X, y):
     if entry.feat:
         modes.append("feat")
     mode = str(rng.choice(modes))
+    if mode_idx is not None:
+        mode = modes[mode_idx % len(modes)]
     if mode == "none":
         return mode, None
     if mode == "idx_unl":
@@ -317,7 +320,10 @@ def gen_candidates(rng, entry, X, y):
         return mode, c
     if mode == "idx_any":
         k = int(rng.integers(1, len(y) + 1))
-        return mode, rng.choice(len(y), size=k, replace=False)
+        c = rng.choice(len(y), size=k, replace=False)
+        if len(unl) and (rng.random() < 0.9 or len(unl) == 1) and not np.isin(c, unl).any():
+            c[0] = int(rng.choice(unl))             # mostly a MIX of labeled and unlabeled candidates
+        return mode, c
     k = int(rng.integers(1, 6))
     rows = X[rng.choice(len(X), size=k)] if rng.random() < 0.6 else rng.integers(0, 3, size=(k, X.shape[1])).astype(float)
     return mode, rows
